@@ -70,6 +70,21 @@ def cases(draw, tier="quick"):
             "meta": {"name": name, "kind": kind, "process": process, "pto": pto, "heavyness": hv, "scheme": "FFNS/FFN0"}}
 
 
+def row_class(delta, hq):
+    """which rows carry the largest deviation: g (gluon), intrinsic (the heavy quark's own rows), q-singlet (all light-quark rows
+    deviate alike) or q-nonsinglet - the attribution that makes a bucket specific to one partonic channel"""
+    mx = np.max(np.abs(delta), axis=1)
+    r = int(np.argmax(mx))
+    pid = run.PIDS[r]
+    if pid == 21:
+        return "g"
+    if abs(pid) >= hq:
+        return "intrinsic"
+    # singlet-type kernels carry the same weight on every light quark and antiquark: the deviations of all rows coincide
+    light = [mx[run.ROW[s * q]] for q in range(1, hq) for s in (1, -1)]
+    return "q-singlet" if max(light) - min(light) <= 1e-6 * max(light) else "q-nonsinglet"
+
+
 def check_case(case):
     v = Verdict()
     th, ob, meta = case["theory"], copy.deepcopy(case["obs"]), case["meta"]
@@ -99,18 +114,20 @@ def check_case(case):
     nontrivial = False
     for o in range(pto + 1):
         v.label(f"order:{o}")
-        ds = {}
+        ds, rc = {}, {}
         for i, xi in enumerate(xis):
             a = run.tensors(r_ffns[i])[(o, 0, 0, 0)]
             b = run.tensors(r_ffn0[i])[(o, 0, 0, 0)]
             s = max(run.maxabs(b), run.maxabs(run.tensors(lo[i])[(0, 0, 0, 0)]), 1e-300)
             d = run.maxabs(a - b) / s
             ds[xi] = d
+            if xi in (1e2, 1e6) or d > A[o] * (1.0 + math.log(xi)) ** (2 * o) / xi + FLOOR:
+                rc[xi] = row_class(a - b, 4 if case["h"] == "charm" else 5)
             env_ = A[o] * (1.0 + math.log(xi)) ** (2 * o) / xi + FLOOR
             v.metric(f"envelope:o{o}", d / env_)
             if not d <= env_:
                 v.fail(
-                    f"C08:limit:{'NC' if meta['process'] != 'CC' else 'CC'}:{kind}:{'heavy' if hv == case['h'] else hv}:order{o}",
+                    f"C08:limit:{'NC' if meta['process'] != 'CC' else 'CC'}:{kind}:{'heavy' if hv == case['h'] else hv}:order{o}:{rc[xi]}",
                     f"{name} ({meta['process']}, {case['h']} massive, m={m}) x={x}: |FFNS-FFN0|/S = {d:.3e} at Q2/m2={xi:.3g}, order {o}; allowed {env_:.3e}; profile { {f'{k:.0e}': float(f'{val:.2e}') for k, val in ds.items()} }",
                 )
                 break
@@ -122,7 +139,7 @@ def check_case(case):
             v.metric(f"decay:o{o}", d6 / lim)
             if not d6 <= lim:
                 v.fail(
-                    f"C08:decay:{'NC' if meta['process'] != 'CC' else 'CC'}:{kind}:{'heavy' if hv == case['h'] else hv}:order{o}",
+                    f"C08:decay:{'NC' if meta['process'] != 'CC' else 'CC'}:{kind}:{'heavy' if hv == case['h'] else hv}:order{o}:{rc[1e6]}",
                     f"{name} ({meta['process']}, {case['h']} massive, m={m}) x={x}: |FFNS-FFN0|/S does not decay: {d2:.3e} at Q2/m2=1e2, {d6:.3e} at 1e6 (order {o})",
                 )
     v.nontrivial = nontrivial
